@@ -3,10 +3,14 @@
    syntax diagnostic -- is the lookup's answer at a character boundary inside the text (C04_stored_positions, for every text,
    well-formed or not, and any tables: an invariant of the parser's stack that needs no typing), that Position::new itself is
    sound, and that the lookup index of the end of a prefix is its character count.
-   Also proved: every diagnostic validation adds sits on a node's range (C04_validation_on_nodes).
-   Not proved: start <= end, exactness of name ranges and nesting; those are checked on the implementation's output by
+   Also proved: every diagnostic validation adds sits on a node's range (C04_validation_on_nodes), and EVERY range of every
+   stored tree node and syntax diagnostic has start <= end (C04_ranges_ordered, for every text and the regenerated tables:
+   the symbols on the parser's stack occupy consecutive stretches of the text, everything inside a symbol's value lies inside
+   that symbol's stretch, and Coq checks by an abstract run of all 210 productions' actions that every action passes positions
+   on in text order).
+   Not proved: exactness of name ranges and nesting of a node's ranges; those are checked on the implementation's output by
    text-based oracles and by the exact correspondence with the table-driven model. *)
-From AidlV Require Import Model.LrDriver Spec.Master Proofs.Totality Proofs.RangesOk Proofs.ArityOk Proofs.DiagSites.
+From AidlV Require Import Model.LrDriver Spec.Master Proofs.Totality Proofs.RangesOk Proofs.ArityOk Proofs.DiagSites Proofs.RangesOrd.
 
 Theorem C04_position : forall cx off p,
   mk_pos cx off = Some p ->
@@ -45,6 +49,17 @@ Proof.
   exact (validation_diag_sites defined a (fr_diags fr) a' ds d (add_content_wf cx id fr a H E) V Hd).
 Qed.
 Print Assumptions C04_validation_on_nodes.
+
+(* start <= end, for every range of the stored tree (aidl_rs: package, imports, declarations, the item and its name, every
+   member, argument, direction, type at any depth, transact-code and oneway ranges) and of every syntax diagnostic *)
+Theorem C04_ranges_ordered : forall cx id fr, add_content cx id = Added fr ->
+  Forall diag_ord (fr_diags fr) /\ (forall a, fr_ast fr = Some a -> Forall rle (aidl_rs a)).
+Proof. exact add_content_ordered. Qed.
+Print Assumptions C04_ranges_ordered.
+
+Theorem C04_rle_meaning : forall r, rle r <-> (p_off (r_start r) <= p_off (r_end r))%N.
+Proof. intros r. reflexivity. Qed.
+Print Assumptions C04_rle_meaning.
 
 (* what pos_ok says, spelled out *)
 Theorem C04_pos_ok_meaning : forall cx p, pos_ok cx p ->
